@@ -186,8 +186,8 @@ pub fn store_with(amounts: &[i128]) -> MemStore {
             .enumerate()
             .map(|(i, a)| Utxo {
                 r#ref: UtxoRef {
-                    txid: vec![(i + 1) as u8; 32],
-                    index: 0,
+                    txid: vec![((i % 250) + 1) as u8; 32],
+                    index: (i / 250) as u32,
                 },
                 address: ADDR_A.to_vec(),
                 assets: CanonicalAssets::from_naked_amount(*a),
@@ -399,9 +399,14 @@ pub fn run_c14(opts: &Opts, out: &mut Emitter) {
         if with_tip {
             args.insert("tip".into(), ArgValue::Int(tip));
         }
-        let amounts: Vec<i128> = match r.below(3) {
+        let amounts: Vec<i128> = match r.below(4) {
             0 => vec![10],
             1 => vec![r.range(5_000_000, 90_000_000) as i128],
+            // a wallet of many UTxOs, around and beyond the 50 the selector looks at
+            2 => {
+                let n = *r.pick(&[49usize, 50, 51, 52, 64, 120, 300]);
+                (0..n).map(|_| r.range(1_000_000, 3_000_000) as i128).collect()
+            }
             _ => vec![r.range(1_000_000, 9_000_000) as i128, r.range(1_000_000, 90_000_000) as i128],
         };
         let cost_models = !r.chance(1, 8);
